@@ -143,6 +143,32 @@ Proof.
     apply sig_same; reflexivity.
 Qed.
 
+(* provider counts only grow *)
+Definition pge (s s' : kstate) : Prop := forall t, (pcount s t <= pcount s' t)%nat.
+Lemma pge_refl s : pge s s. Proof. intros t. apply le_n. Qed.
+Lemma pge_trans a b c : pge a b -> pge b c -> pge a c.
+Proof. intros H1 H2 t. eapply Nat.le_trans; [apply H1|apply H2]. Qed.
+Lemma pge_prov s s' : provided s' = provided s -> pge s s'.
+Proof. intros E t. unfold pcount. rewrite E. apply le_n. Qed.
+Lemma sig_prov s s' : sig s' = sig s -> provided s' = provided s.
+Proof. unfold sig. intros E. inversion E. reflexivity. Qed.
+Lemma pge_sig s s' : sig s' = sig s -> pge s s'.
+Proof. intros E. apply pge_prov, sig_prov. exact E. Qed.
+Lemma pge_provide s t s1 k : provide s t = (s1, k) -> pge s s1.
+Proof.
+  intros Ep. destruct (pcount_provide _ _ _ _ Ep) as (Ek & _ & _ & P1 & P2). intros t'.
+  destruct (Z.eq_dec t' t) as [->|Hne]; [rewrite P1; lia|rewrite (P2 _ Hne); apply le_n].
+Qed.
+Lemma pge_spawn s u self t r s' o p : spawn s u self t r = (s', o, p) -> pge s s'.
+Proof.
+  unfold spawn. destruct (provide s t) as [s1 inst] eqn:Ep. pose proof (pge_provide _ _ _ _ Ep) as G1.
+  destruct (lookup t (registry s1)).
+  - intros E; inversion E; subst. exact G1.
+  - intros E. eapply pge_trans; [exact G1|]. apply pge_prov.
+    eapply eq_trans; [eapply sig_prov, sig_stop; exact E|]. eapply eq_trans; [apply sig_prov, sig_deliver_sys|].
+    eapply eq_trans; [apply sig_prov, sig_upd_actor; sg|]. reflexivity.
+Qed.
+
 Section F.
 Variable roles : list role.
 
@@ -187,6 +213,41 @@ Proof.
   destruct (is_sys (a_tok a)); [intros H; inversion H; subst; exact HP|].
   destruct (do_actions roles s u snd (find_rule (rules (role_of roles a)) t (a_inst a))) as [[s1 o1] p1] eqn:E.
   intros H; inversion H; subst. eapply PI_do_actions; eassumption.
+Qed.
+Lemma pge_do_action s u snd act s' o p : do_action roles s u snd act = (s', o, p) -> pge s s'.
+Proof.
+  unfold do_action. destruct (get s u) as [a|]; [|intros H; inversion H; subst; apply pge_refl].
+  assert (NS : forall s1 k, next_serial s = (s1, k) -> sig s1 = sig s) by (intros s1 k En; unfold next_serial in En; inversion En; subst; reflexivity).
+  destruct act.
+  - destruct (next_serial s) as [s1 k] eqn:En. destruct (deliver_user s1 t rNone (UProbe n k)) as [s2 o2] eqn:E.
+    intros H; inversion H; subst. apply pge_sig. eapply sig_trans; [eapply NS; reflexivity|eapply sig_deliver_user; exact E].
+  - destruct (next_serial s) as [s1 k] eqn:En. destruct (deliver_user s1 t (a_tok a) (UProbe n k)) as [s2 o2] eqn:E.
+    intros H; inversion H; subst. apply pge_sig. eapply sig_trans; [eapply NS; reflexivity|eapply sig_deliver_user; exact E].
+  - destruct (next_serial s) as [s1 k] eqn:En. destruct (deliver_user s1 snd (a_tok a) (UProbe n k)) as [s2 o2] eqn:E.
+    intros H; inversion H; subst. apply pge_sig. eapply sig_trans; [eapply NS; reflexivity|eapply sig_deliver_user; exact E].
+  - destruct (next_serial s) as [s1 k] eqn:En. destruct (send_each s1 (a_tok a) (a_children a) n k) as [s2 o2] eqn:E.
+    intros H; inversion H; subst. apply pge_sig. eapply sig_trans; [eapply NS; reflexivity|eapply sig_send_each; exact E].
+  - destruct (spawn s u (a_tok a) t r) as [[s1 o1] p1] eqn:E. intros H; inversion H; subst. eapply pge_spawn; exact E.
+  - destruct (terminate s (a_tok a) t g) as [s1 o1] eqn:E. intros H; inversion H; subst. apply pge_sig. eapply sig_terminate; exact E.
+  - intros H; inversion H; subst. apply pge_sig, sig_deliver_sys.
+  - intros H; inversion H; subst. apply pge_sig, sig_deliver_sys.
+  - destruct (report_abnormal roles s u) as [[s1 o1] p1] eqn:E. intros H; inversion H; subst. apply pge_sig. eapply sig_report_abnormal; exact E.
+  - intros H; inversion H; subst. apply pge_refl.
+Qed.
+Lemma pge_do_actions acts : forall s u snd s' o p, do_actions roles s u snd acts = (s', o, p) -> pge s s'.
+Proof.
+  induction acts as [|act rest IH]; intros s u snd s' o p; cbn [do_actions]; [intros H; inversion H; subst; apply pge_refl|].
+  destruct (do_action roles s u snd act) as [[s1 o1] p1] eqn:E1. unfold bind. destruct p1.
+  - intros H; inversion H; subst. eapply pge_do_action; exact E1.
+  - destruct (do_actions roles s1 u snd rest) as [[s2 o2] p2] eqn:E2. intros H; inversion H; subst.
+    eapply pge_trans; [eapply pge_do_action; exact E1|eapply IH; exact E2].
+Qed.
+Lemma pge_handle s u t k snd s' o p : handle roles s u t k snd = (s', o, p) -> pge s s'.
+Proof.
+  unfold handle, handle_q. destruct (get s u) as [a|]; [|intros H; inversion H; subst; apply pge_refl].
+  destruct (is_sys (a_tok a)); [intros H; inversion H; subst; apply pge_refl|].
+  destruct (do_actions roles s u snd (find_rule (rules (role_of roles a)) t (a_inst a))) as [[s1 o1] p1] eqn:E.
+  intros H; inversion H; subst. eapply pge_do_actions; exact E.
 Qed.
 Lemma PI_handle_q q s u t k snd s' o p : PI s -> handle_q roles q s u t k snd = (s', o, p) -> PI s'.
 Proof.
@@ -234,34 +295,38 @@ Proof.
   { intros x Hx Hi. split; [exact Hx|]. intros a0 a' E0 Ga' _ Hne. inversion E0; subst a0. exfalso. apply Hne. apply Hi. exact Ga'. }
   destruct (a_children a); [|intros H; inversion H; subst; apply Q; [exact HP|intros a' Ha'; rewrite Ea in Ha'; inversion Ha'; reflexivity]].
   destruct (a_st a) eqn:Est; try (intros H; inversion H; subst; apply Q; [exact HP|intros a' Ha'; rewrite Ea in Ha'; inversion Ha'; reflexivity]).
-  destruct (handle roles s u TT 0%nat snd) as [[s1 o1] p1] eqn:E1.
-  pose proof (PI_handle _ _ _ _ _ _ _ _ HP E1) as H1.
-  destruct (handle_keeps_obj roles _ _ _ _ _ _ _ _ _ Ea E1) as (a1 & G1 & T1 & I1 & S1). unfold bind at 1. destruct p1.
+  (* the new instance number is the provider's count BEFORE the old instance's last two handler calls *)
+  destruct (provide s (a_tok a)) as [s0 inst] eqn:Ep.
+  destruct (pcount_provide _ _ _ _ Ep) as (Ek & A0 & _ & P1 & _).
+  pose proof (PI_provide _ _ _ _ HP Ep) as H0.
+  assert (G0 : get s0 u = Some a) by (unfold get in *; rewrite A0; exact Ea).
+  pose proof (HP u a Ea) as L. unfold PIa in L. rewrite <- Ek in L.
+  destruct (handle roles s0 u TT 0%nat snd) as [[s1 o1] p1] eqn:E1.
+  pose proof (PI_handle _ _ _ _ _ _ _ _ H0 E1) as H1.
+  destruct (handle_keeps_obj roles _ _ _ _ _ _ _ _ _ G0 E1) as (a1 & G1 & T1 & I1 & S1). unfold bind at 1. destruct p1.
   - intros H; inversion H; subst. apply Q; [exact H1|intros a' Ha'; rewrite G1 in Ha'; inversion Ha'; subst; exact I1].
   - destruct (handle roles s1 u TTS 0%nat snd) as [[s2 o2] p2] eqn:E2.
     pose proof (PI_handle _ _ _ _ _ _ _ _ H1 E2) as H2.
     destruct (handle_keeps_obj roles _ _ _ _ _ _ _ _ _ G1 E2) as (a2 & G2 & T2 & I2 & S2). unfold bind. destruct p2.
     + intros H; inversion H; subst. apply Q; [exact H2|intros a' Ha'; rewrite G2 in Ha'; inversion Ha'; subst; congruence].
-    + destruct (provide s2 (a_tok a)) as [s3 inst] eqn:Ep.
-      destruct (pcount_provide _ _ _ _ Ep) as (Ek & A3 & _ & P1 & P2).
-      pose proof (PI_provide _ _ _ _ H2 Ep) as H3.
-      assert (G3 : get s3 u = Some a2) by (unfold get in *; rewrite A3; exact G2).
-      set (s4 := upd_actor s3 u (fun b => w_st Alive (w_inst inst b))).
-      assert (G4 : get s4 u = Some (w_st Alive (w_inst inst a2))) by (exact (get_upd_actor_same s3 u (fun b => w_st Alive (w_inst inst b)) a2 G3)).
+    + set (s4 := upd_actor s2 u (fun b => w_st Alive (w_inst inst b))).
+      assert (G4 : get s4 u = Some (w_st Alive (w_inst inst a2))) by (exact (get_upd_actor_same s2 u (fun b => w_st Alive (w_inst inst b)) a2 G2)).
+      assert (M2 : (S inst <= pcount s2 (a_tok a))%nat).
+      { rewrite <- P1. eapply pge_trans; [eapply pge_handle; exact E1|eapply pge_handle; exact E2]. }
       assert (H4 : PI s4).
-      { assert (Pv : forall t0, pcount s4 t0 = pcount s3 t0) by (intros t0; unfold pcount, s4, upd_actor; rewrite G3; reflexivity).
-        intros v b Hb. unfold PIa. rewrite Pv. unfold s4, upd_actor in Hb. rewrite G3 in Hb. destruct (Nat.eq_dec u v) as [->|Hne].
-        - rewrite (get_put_same s3 v _ _ G3) in Hb. inversion Hb; subst b. intros _. cbn [a_tok a_inst w_st w_inst].
-          rewrite T2, T1, P1. lia.
-        - rewrite get_put_other in Hb by exact Hne. intros Hs. exact (H3 v b Hb Hs). }
+      { assert (Pv : forall t0, pcount s4 t0 = pcount s2 t0) by (intros t0; unfold pcount, s4, upd_actor; rewrite G2; reflexivity).
+        intros v b Hb. unfold PIa. rewrite Pv. unfold s4, upd_actor in Hb. rewrite G2 in Hb. destruct (Nat.eq_dec u v) as [->|Hne].
+        - rewrite (get_put_same s2 v _ _ G2) in Hb. inversion Hb; subst b. intros _. cbn [a_tok a_inst w_st w_inst].
+          rewrite T2, T1. lia.
+        - rewrite get_put_other in Hb by exact Hne. intros Hs. exact (H2 v b Hb Hs). }
       destruct (start_instance roles (deliver_sys s4 (a_tok a) (a_tok a) SResume) u (a_tok a) (a_parent a)) as [[s9 o9] p9] eqn:E9.
       intros H; inversion H; subst. split.
       * eapply PI_start_instance; [|exact E9]. eapply PI_sig; [apply sig_deliver_sys|exact H4].
       * intros a0 a' E0 Ga' Hs _. inversion E0; subst a0.
-        (* the instance after the step is the provider's count before it *)
+        (* the instance after the step is the provider's count before the step *)
         destruct (obj_of _ _ u _ (keep_deliver_sys s4 (a_tok a) (a_tok a) SResume) (id_deliver_sys s4 (a_tok a) (a_tok a) SResume) G4) as (a5 & G5 & _ & I5 & _).
         destruct (obj_start_instance roles _ _ _ _ _ _ _ _ G5 E9) as (a9 & G9 & _ & I9 & _). rewrite Ga' in G9. inversion G9; subst a9. rewrite I9, I5. cbn [a_inst w_st w_inst].
-        pose proof (H2 u a2 G2) as L. unfold PIa in L. rewrite T2, T1, I2, I1 in L. exact (L Hs).
+        exact (L Hs).
 Qed.
 
 (* the running object's instance number after an operation: unchanged, or greater *)
@@ -387,28 +452,26 @@ Proof.
   exists a'. split; [exact G'|]. destruct (PI_try_restarted _ _ _ _ _ _ HP H) as [_ R].
   destruct (Nat.eq_dec (a_inst a') (a_inst a)) as [E|Hne]; [|exact (R a a' Ha G' Hs Hne)].
   exfalso. revert H. unfold try_restarted. rewrite Ha, Hc, Hst.
-  destruct (handle roles s u TT 0%nat snd) as [[s1 o1] p1] eqn:E1.
-  pose proof (PI_handle _ _ _ _ _ _ _ _ HP E1) as H1.
-  destruct (handle_keeps_obj roles _ _ _ _ _ _ _ _ _ Ha E1) as (a1 & G1 & T1 & I1 & S1).
-  destruct (handle_one roles s u a TT snd s1 o1 p1 Ha Hs ltac:(intros n; discriminate) E1) as [_ Pf1].
+  destruct (provide s (a_tok a)) as [s0 inst] eqn:Ep.
+  destruct (pcount_provide _ _ _ _ Ep) as (Ek & A0 & _ & _ & _).
+  assert (G0 : get s0 u = Some a) by (unfold get in *; rewrite A0; exact Ha).
+  pose proof (HP u a Ha) as L. unfold PIa in L. rewrite <- Ek in L. specialize (L Hs).
+  destruct (handle roles s0 u TT 0%nat snd) as [[s1 o1] p1] eqn:E1.
+  destruct (handle_keeps_obj roles _ _ _ _ _ _ _ _ _ G0 E1) as (a1 & G1 & T1 & I1 & S1).
+  destruct (handle_one roles s0 u a TT snd s1 o1 p1 G0 Hs ltac:(intros n; discriminate) E1) as [_ Pf1].
   rewrite (Pf1 ltac:(rewrite Hst; reflexivity)). unfold bind at 1.
   destruct (handle roles s1 u TTS 0%nat snd) as [[s2 o2] p2] eqn:E2.
-  pose proof (PI_handle _ _ _ _ _ _ _ _ H1 E2) as H2.
   destruct (handle_keeps_obj roles _ _ _ _ _ _ _ _ _ G1 E2) as (a2 & G2 & T2 & I2 & S2).
   assert (Hs1 : is_sys (a_tok a1) = false) by (rewrite T1; exact Hs).
   destruct (handle_one roles s1 u a1 TTS snd s2 o2 p2 G1 Hs1 ltac:(intros n; discriminate) E2) as [_ Pf2].
   rewrite (Pf2 ltac:(rewrite S1, Hst; reflexivity)). unfold bind.
-  destruct (provide s2 (a_tok a)) as [s3 inst] eqn:Ep.
-  destruct (pcount_provide _ _ _ _ Ep) as (Ek & A3 & _ & _ & _).
-  assert (G3 : get s3 u = Some a2) by (unfold get in *; rewrite A3; exact G2).
-  set (s4 := upd_actor s3 u (fun b => w_st Alive (w_inst inst b))).
-  assert (G4 : get s4 u = Some (w_st Alive (w_inst inst a2))) by (exact (get_upd_actor_same s3 u (fun b => w_st Alive (w_inst inst b)) a2 G3)).
+  set (s4 := upd_actor s2 u (fun b => w_st Alive (w_inst inst b))).
+  assert (G4 : get s4 u = Some (w_st Alive (w_inst inst a2))) by (exact (get_upd_actor_same s2 u (fun b => w_st Alive (w_inst inst b)) a2 G2)).
   destruct (start_instance roles (deliver_sys s4 (a_tok a) (a_tok a) SResume) u (a_tok a) (a_parent a)) as [[s9 o9] p9] eqn:E9.
   intros H; inversion H; subst.
   destruct (obj_of _ _ u _ (keep_deliver_sys s4 (a_tok a) (a_tok a) SResume) (id_deliver_sys s4 (a_tok a) (a_tok a) SResume) G4) as (a5 & G5 & _ & I5 & _).
   destruct (obj_start_instance roles _ _ _ _ _ _ _ _ G5 E9) as (a9 & G9 & _ & I9 & _). rewrite G' in G9. inversion G9; subst a9.
-  rewrite I9, I5 in E. cbn [a_inst w_st w_inst] in E.
-  pose proof (H2 u a2 G2) as L. unfold PIa in L. rewrite T2, T1, I2, I1 in L. specialize (L Hs). lia.
+  rewrite I9, I5 in E. cbn [a_inst w_st w_inst] in E. lia.
 Qed.
 
 Lemma PI_process_user s u e s' o p : PI s -> process_user roles s u e = (s', o, p) -> PI s'.
